@@ -272,9 +272,21 @@ fn other_tag_range(id: &ast_view::Ident) -> Option<SourceRange> {
   }
 }
 
+/// `<global>` or `<process />`: a JSX tag name that starts with a lower-case
+/// letter names an intrinsic element, it is not a reference to a variable.
+fn is_intrinsic_jsx_tag(id: &ast_view::Ident) -> bool {
+  matches!(
+    id.parent(),
+    ast_view::Node::JSXOpeningElement(_) | ast_view::Node::JSXClosingElement(_)
+  ) && id.sym().starts_with(|c: char| c.is_ascii_lowercase())
+}
+
 impl Handler for NoNodeGlobalsHandler {
   fn ident(&mut self, id: &ast_view::Ident, ctx: &mut Context) {
     if !NODE_GLOBALS.contains_key(id.sym()) {
+      return;
+    }
+    if is_intrinsic_jsx_tag(id) {
       return;
     }
     if id.ctxt() == ctx.unresolved_ctxt() {
